@@ -127,6 +127,11 @@ def sha_file(path):
         return hashlib.sha256(f.read()).hexdigest()
 
 
+def flat(entries):
+    """printouts.txt holds one text line per line: an entry that contains a line break covers several"""
+    return [seg for e in entries for seg in str(e).split("\n")]
+
+
 def parse_printouts(path):
     out = {}
     cur = None
@@ -237,7 +242,7 @@ def run_case(case, sb):
             else:
                 got = parse_printouts(pp).get("default", [])
                 alone_default = (r.get("printouts_named") or {}).get("default", [])
-                if got != o["printouts"] or o["printouts"] != alone_default:
+                if got != flat(o["printouts"]) or o["printouts"] != alone_default:
                     problems.append({"member": name, "printouts.txt": got, "in_memory": o["printouts"], "standalone": alone_default})
         elif os.path.isfile(pp) and parse_printouts(pp).get("default"):
             problems.append({"member": name, "printouts.txt": "present although nothing was printed"})
@@ -246,7 +251,7 @@ def run_case(case, sb):
             mem_named = {k: v for k, v in (o.get("printouts_named") or {}).items() if v}
             alone_named = {k: v for k, v in (r.get("printouts_named") or {}).items() if v}
             disk_named = {k: v for k, v in (parse_printouts(pp) if os.path.isfile(pp) else {}).items() if v}
-            if not (mem_named == alone_named == disk_named):
+            if not (mem_named == alone_named and {k: flat(v) for k, v in mem_named.items()} == disk_named):
                 problems.append({"member": name, "printout_streams": {"standalone": alone_named, "in_memory": mem_named, "printouts.txt": disk_named}})
             if len(mem_named) > 1 or (mem_named and "default" not in mem_named):
                 labels.append("named-printout-stream")
